@@ -37,7 +37,26 @@ def _repr(enc, uri, k):
     wire = bytes(enc.Name.encode(comps))
     if k == 2:
         return wire
-    return memoryview(wire)
+    if k == 3:
+        return memoryview(wire)
+    # a WRITABLE buffer of the caller (re-used for something else right after the call): the encoded name in a
+    # bytearray, or components that are memoryviews into one
+    ba = bytearray(wire)
+    SCRATCH.append(ba)
+    if k == 4:
+        return ba
+    return enc.Name.from_bytes(memoryview(ba))
+
+
+SCRATCH = []
+
+
+def _scribble():
+    """the caller re-uses its buffers"""
+    for ba in SCRATCH:
+        for i in range(len(ba)):
+            ba[i] = 0x5A
+    del SCRATCH[:]
 
 
 def _is_prefix(p, n):
@@ -61,6 +80,8 @@ def _dispatch(eng, case, front):
     else:
         app, face = appenv.make_app(front)
         target = app
+
+    del SCRATCH[:]
 
     def mk(hid):
         if front == 'v2':
@@ -136,6 +157,7 @@ def _dispatch(eng, case, front):
                 eng.fail('attach-detach-no-error', exc_sig(e), {'op': op, 'prefix': p})
         except Exception as e:
             eng.fail('attach-detach-no-error', exc_sig(e), {'op': op, 'prefix': p})
+        _scribble()
         if traffic and j < nops - 1:
             probe(j)
     im = case.get('inames') or INAMES
@@ -285,6 +307,10 @@ def cases(tier, seed):
     for h in ('dispatch_v2', 'dispatch_v1', 'dispatch_disp'):
         for n in (0, 1, 2):
             cs.append((h, {'ops': n}, {'weight': 1 + 60 ** n // 30, 'split_depth': 3 if n >= 2 else None}))
+        # prefixes handed over in writable buffers that the caller overwrites afterwards
+        cs.append((h, {'ops': 2, 'reprs': [4, 5], 'prefixes': ['/a', '/a/a', '/b']}, {'weight': 20}))
+        cs.append((h, {'ops': 3, 'reprs': [5, 4, 4], 'prefixes': ['/a', '/a/a'], 'inames': ['/a', '/a/a', '/a/a/z', '/b']},
+                   {'weight': 60, 'split_depth': 4}))
         if h != 'dispatch_disp':
             cs.append((h, {'ops': 2, 'traffic': True, 'reprs': [0, 2], 'prefixes': ['/a', '/a/a', '/'],
                            'inames': ['/a', '/a/a', '/a/a/z', '/b']}, {'weight': 30}))
